@@ -1,6 +1,7 @@
 package cluster
 
 import (
+	"bytes"
 	"fmt"
 	"io"
 	"os"
@@ -48,7 +49,11 @@ func (c *ClusterNode) syncUserCollections() error {
 						Bucket:    USERCOLSBUCKETKEY,
 					}
 				}
-				postage[destination].KeyValues[string(k)] = v
+				/* The value belongs to the read transaction, it must be copied
+				 * before it is used after the transaction: the records are sent
+				 * later, and writes arriving in between (other servers handing
+				 * their records to us) reuse the pages it points into. */
+				postage[destination].KeyValues[string(k)] = bytes.Clone(v)
 			}
 			return nil
 		})
